@@ -58,7 +58,7 @@ PREAMBLE = (r'\documentclass{article}\usepackage{ifthen}'
             r'\begin{document}')
 TRUE_ATOMS = [r'\equal{a}{a}', r'\isodd{3}', r'\boolean{vbtrue}', r'\isundefined{\vundefd}', r'\lengthtest{1cm<2cm}',
               r'\lengthtest{10mm=1cm}', r'\equal{\vnone}{1}', r'\isodd{\value{cthree}}', r'\lengthtest{\vlen>1cm}']
-FALSE_ATOMS = [r'\equal{a}{b}', r'\isodd{4}', r'\boolean{vbfalse}', r'\isundefined{\vnone}', r'\lengthtest{2in<1cm}',
+FALSE_ATOMS = [r'\equal{a}{b}', r'\isodd{4}', r'\boolean{vbfalse}', r'\isundefined{\vnone}', r'\lengthtest{2in<1cm}', r'\lengthtest{1pc>12pt}', r'\lengthtest{\vlen>\vlen}', r'\lengthtest{2pt<2pt}',
                r'\lengthtest{1pt=1bp}', r'\equal{\vntwo}{1}', r'\isodd{\value{ctwo}}', r'\lengthtest{\vlen<28pt}']
 NUMS = {'1': ['1', r'\value{cone}', r'\vnone', '01'], '2': ['2', r'\value{ctwo}', r'\vntwo', '+2'],
         '3': ['3', r'\value{cthree}', r'\vnthree', '3']}
